@@ -451,5 +451,109 @@ theorem normalize_unit (q : List (K × K)) (h : trapz q ≠ 0) : absK (trapz (no
   unfold normalize
   rw [trapz_scale, absK_eq_abs, absK_eq_abs, abs_div, abs_abs, div_self (abs_ne_zero.mpr h)]
 
+/-! ### the spec integral of a non-negative curve is non-negative and monotone in its upper limit -/
+
+theorem lin_nonneg (p0 p1 : K × K) (x : K) (h01 : p0.1 < p1.1) (h0 : p0.1 ≤ x) (h1 : x ≤ p1.1)
+    (y0 : 0 ≤ p0.2) (y1 : 0 ≤ p1.2) : 0 ≤ lin p0 p1 x := by
+  unfold lin
+  have hd : 0 < p1.1 - p0.1 := sub_pos.mpr h01
+  have ht0 : 0 ≤ (x - p0.1) / (p1.1 - p0.1) := div_nonneg (sub_nonneg.mpr h0) hd.le
+  have ht1 : (x - p0.1) / (p1.1 - p0.1) ≤ 1 := (div_le_one hd).mpr (by linarith)
+  rcases le_total p0.2 p1.2 with h | h
+  · have := mul_nonneg ht0 (sub_nonneg.mpr h); linarith
+  · have := mul_nonneg (sub_nonneg.mpr ht1) (sub_nonneg.mpr h); nlinarith
+
+/-- inside one segment the spec integral grows by the trapezium between the two abscissae -/
+theorem seg_diff (p0 p1 : K × K) (a b : K) (h01 : p0.1 < p1.1) :
+    (b - p0.1) * (p0.2 + lin p0 p1 b) / two - (a - p0.1) * (p0.2 + lin p0 p1 a) / two
+      = (b - a) * (lin p0 p1 a + lin p0 p1 b) / 2 := by
+  have hd : p1.1 - p0.1 ≠ 0 := sub_ne_zero.mpr (ne_of_gt h01)
+  rw [two_eq]; unfold lin; field_simp; ring
+
+theorem seg_mono (p0 p1 : K × K) (a b : K) (h01 : p0.1 < p1.1) (h0 : p0.1 ≤ a) (hab : a ≤ b) (h1 : b ≤ p1.1)
+    (y0 : 0 ≤ p0.2) (y1 : 0 ≤ p1.2) :
+    (a - p0.1) * (p0.2 + lin p0 p1 a) / two ≤ (b - p0.1) * (p0.2 + lin p0 p1 b) / two := by
+  have la := lin_nonneg p0 p1 a h01 h0 (le_trans hab h1) y0 y1
+  have lb := lin_nonneg p0 p1 b h01 (le_trans h0 hab) h1 y0 y1
+  have := seg_diff p0 p1 a b h01
+  have : 0 ≤ (b - a) * (lin p0 p1 a + lin p0 p1 b) / 2 :=
+    div_nonneg (mul_nonneg (sub_nonneg.mpr hab) (add_nonneg la lb)) (by norm_num)
+  linarith
+
+theorem cumInt_nonneg : ∀ (l : List (K × K)) (t : K), SortedX l → (∀ p ∈ l, 0 ≤ p.2) → 0 ≤ cumInt l t
+  | [], _, _, _ => by simp [cumInt]
+  | [_], _, _, _ => by simp [cumInt]
+  | p0 :: p1 :: rest, t, hs, hnn => by
+    have h01 : p0.1 < p1.1 := (List.pairwise_cons.mp hs).1 p1 (List.mem_cons_self)
+    have y0 := hnn p0 List.mem_cons_self
+    have y1 := hnn p1 (List.mem_cons_of_mem _ List.mem_cons_self)
+    have ih := cumInt_nonneg (p1 :: rest) t (List.pairwise_cons.mp hs).2 (fun p hp => hnn p (List.mem_cons_of_mem _ hp))
+    simp only [cumInt]
+    by_cases h0 : t ≤ p0.1
+    · rw [if_pos h0]
+    · rw [if_neg h0]
+      by_cases h1 : t ≤ p1.1
+      · rw [if_pos h1, two_eq]
+        have := lin_nonneg p0 p1 t h01 (not_le.mp h0).le h1 y0 y1
+        exact div_nonneg (mul_nonneg (sub_nonneg.mpr (not_le.mp h0).le) (add_nonneg y0 this)) (by norm_num)
+      · rw [if_neg h1, two_eq]
+        have : 0 ≤ (p1.1 - p0.1) * (p0.2 + p1.2) / 2 :=
+          div_nonneg (mul_nonneg (sub_nonneg.mpr h01.le) (add_nonneg y0 y1)) (by norm_num)
+        linarith
+
+theorem cumInt_mono : ∀ (l : List (K × K)) (a b : K), SortedX l → (∀ p ∈ l, 0 ≤ p.2) → a ≤ b →
+    cumInt l a ≤ cumInt l b
+  | [], _, _, _, _, _ => by simp [cumInt]
+  | [_], _, _, _, _, _ => by simp [cumInt]
+  | p0 :: p1 :: rest, a, b, hs, hnn, hab => by
+    have h01 : p0.1 < p1.1 := (List.pairwise_cons.mp hs).1 p1 (List.mem_cons_self)
+    have hs' : SortedX (p1 :: rest) := (List.pairwise_cons.mp hs).2
+    have hnn' : ∀ p ∈ p1 :: rest, 0 ≤ p.2 := fun p hp => hnn p (List.mem_cons_of_mem _ hp)
+    have y0 := hnn p0 List.mem_cons_self
+    have y1 := hnn p1 (List.mem_cons_of_mem _ List.mem_cons_self)
+    by_cases ha0 : a ≤ p0.1
+    · have : cumInt (p0 :: p1 :: rest) a = 0 := by simp [cumInt, ha0]
+      rw [this]; exact cumInt_nonneg _ b hs hnn
+    · have h0a : p0.1 < a := not_le.mp ha0
+      have hb0 : ¬ b ≤ p0.1 := not_le.mpr (lt_of_lt_of_le h0a hab)
+      by_cases ha1 : a ≤ p1.1
+      · have ea : cumInt (p0 :: p1 :: rest) a = (a - p0.1) * (p0.2 + lin p0 p1 a) / two := by
+          simp [cumInt, ha0, ha1]
+        by_cases hb1 : b ≤ p1.1
+        · have eb : cumInt (p0 :: p1 :: rest) b = (b - p0.1) * (p0.2 + lin p0 p1 b) / two := by
+            simp [cumInt, hb0, hb1]
+          rw [ea, eb]; exact seg_mono p0 p1 a b h01 h0a.le hab hb1 y0 y1
+        · have eb : cumInt (p0 :: p1 :: rest) b
+              = (p1.1 - p0.1) * (p0.2 + p1.2) / two + cumInt (p1 :: rest) b := by
+            simp [cumInt, hb0, hb1]
+          have h1 := seg_mono p0 p1 a p1.1 h01 h0a.le ha1 le_rfl y0 y1
+          rw [lin_right p0 p1 h01] at h1
+          have h2 := cumInt_nonneg (p1 :: rest) b hs' hnn'
+          rw [ea, eb]; linarith
+      · have hb1 : ¬ b ≤ p1.1 := not_le.mpr (lt_of_lt_of_le (not_le.mp ha1) hab)
+        have ih := cumInt_mono (p1 :: rest) a b hs' hnn' hab
+        simp only [cumInt, ha0, hb0, ha1, hb1, if_false]
+        linarith
+
+/-- one bin of `Filter.rebin`, edges in either order: the exact integral of the response between the
+    clipped edges taken in increasing order -/
+theorem binResp_exact (p0 : K × K) (tl : List (K × K)) (hs : SortedX (p0 :: tl)) (e1 e2 : K) :
+    binResp (p0 :: tl) p0.1 (lastD tl p0).1 e1 e2
+      = cumInt (p0 :: tl) (clampK p0.1 (lastD tl p0).1 (max e1 e2))
+        - cumInt (p0 :: tl) (clampK p0.1 (lastD tl p0).1 (min e1 e2)) := by
+  rcases le_total e1 e2 with h | h
+  · rw [max_eq_right h, min_eq_left h]; exact binResp_inc p0 tl hs e1 e2 h
+  · rw [max_eq_left h, min_eq_right h]; exact binResp_dec p0 tl hs e1 e2 h
+
+theorem mem_zipWith_exists {α β γ : Type} (f : α → β → γ) : ∀ (l1 : List α) (l2 : List β) (r : γ),
+    r ∈ List.zipWith f l1 l2 → ∃ a b, r = f a b
+  | [], _, _, h => by simp at h
+  | _ :: _, [], _, h => by simp at h
+  | a :: l1, b :: l2, r, h => by
+    rw [List.zipWith_cons_cons, List.mem_cons] at h
+    rcases h with h | h
+    · exact ⟨a, b, h⟩
+    · exact mem_zipWith_exists f l1 l2 r h
+
 end Integ
 end SF
